@@ -17,11 +17,11 @@ import (
 const c07KeyFresh = "C07:fresh-decoder-first-ids-in-upper-half"
 
 type c07Case struct {
-	D, P    int
-	Base    uint32 // first sequence id of the group (multiple of D+P)
-	Sizes   []int
-	Order   []int // indices into the group's packets, in arrival order (may repeat = duplicate)
-	Fresh   bool  // decoder not seeked: horizon starts at 0
+	D, P     int
+	Base     uint32 // first sequence id of the group (multiple of D+P)
+	Sizes    []int
+	Order    []int // indices into the group's packets, in arrival order (may repeat = duplicate)
+	Fresh    bool  // decoder not seeked: horizon starts at 0
 	NoParity bool
 }
 
@@ -197,7 +197,12 @@ func TestC07Exhaustive(t *testing.T) {
 // late arrivals, parity skipped by the sender.
 func TestC07Sampled(t *testing.T) {
 	rec := hx.NewRecorder(t)
-	rapid.Check(t, func(rt *rapid.T) {
+	rapid.Check(t, propC07SampledWith(rec))
+}
+
+// propC07SampledWith is the property; rec may be nil (fuzzing).
+func propC07SampledWith(rec *hx.Recorder) func(*rapid.T) {
+	return func(rt *rapid.T) {
 		d := rapid.IntRange(1, 20).Draw(rt, "d")
 		p := rapid.IntRange(1, 8).Draw(rt, "p")
 		if rapid.IntRange(0, 15).Draw(rt, "big") == 0 {
@@ -333,8 +338,10 @@ func TestC07Sampled(t *testing.T) {
 		if rec.WantSample() {
 			rec.Sample(map[string]any{"d": d, "p": p, "start": start, "groups": ngroups, "arrivals": len(sched), "recovered": recovered})
 		}
-	})
+	}
 }
+
+var propC07Sampled = propC07SampledWith(nil)
 
 func seq(n int) []int {
 	s := make([]int, n)
